@@ -17,6 +17,7 @@ Time is never measured; the bound is one-sided (allocating less is never an alar
 """
 import json
 import random
+import re
 import shutil
 
 import nv
@@ -59,7 +60,21 @@ def nvariants(kind, op):
     return len(variants(kind, op))
 
 
+TYPE_OF = {"list": "list", "dict": "dict", "vec": "vector", "bytes": "bytes"}
+
+
 def render(stmt, kind, n, rows=3):
+    src = render0(stmt, kind, n, rows)
+    if stmt.get("typed") and stmt["op"] in ("flat", "nested", "nestedd") and " := " in src:
+        # the variable is DECLARED WITH A TYPE: every later indexed mutation is followed by a type re-check,
+        # which must not cost a copy either
+        ty = TYPE_OF[kind] if stmt["op"] == "flat" or kind == "dict" else "list"
+        name, rhs = src.split(" := ", 1)
+        src = "%s: %s = %s" % (name, ty, rhs)
+    return src
+
+
+def render0(stmt, kind, n, rows=3):
     eb, init, setf, opf, popf = KINDS[kind]
     op, v = stmt["op"], stmt["v"] + stmt["v"]          # variable names xx / yy
     if op == "flat":
@@ -95,10 +110,11 @@ def redeclare_safe(stmts_src):
     seen = set()
     out = []
     for s in stmts_src:
-        if " := " in s:
-            v = s.split(" := ")[0]
+        m = re.match(r"^(\w+)(: \w+ = | := )", s)
+        if m:
+            v = m.group(1)
             if v in seen:
-                s = s.replace(" := ", " = ", 1)
+                s = v + " = " + s[m.end():]
             seen.add(v)
         out.append(s)
     return out
@@ -131,7 +147,7 @@ def mc(rep, tier, wd):
             n = 4000 if kind != "bytes" else 40000
             # every surface form of the step gets its share of the replayed workloads
             salt = len(cases)
-            seq = [dict(s, nested=nested_only, var=(salt // 3 + 7 * q) if q < len(seq) - 1 else salt) for q, s in enumerate(seq)]
+            seq = [dict(s, nested=nested_only, typed=(salt % 3 == 1), var=(salt // 3 + 7 * q) if q < len(seq) - 1 else salt) for q, s in enumerate(seq)]
             srcs = redeclare_safe([render(s, kind, n) for s in seq])
             growth = t["stmt"]["op"] in ("opassign", "opassign2")
             steps = [{"src": s} for s in srcs]
@@ -201,7 +217,8 @@ def drive(rep, tier, seed):
             cases.append({"id": len(cases), "steps": [{"src": s} for s in srcs]})
             plans.append(dict(stmts=stmts, n=0, eb=48, kind="stack"))
             continue
-        stmts = [{"op": {"nested": "nested", "rows": "nestedd", "dictrows": "nestedd", "field": "field"}.get(kind, "flat"), "v": "x"}]
+        stmts = [{"op": {"nested": "nested", "rows": "nestedd", "dictrows": "nestedd", "field": "field"}.get(kind, "flat"), "v": "x",
+                  "typed": len(plans) % 2 == 1}]
         k = rng.randint(60, 200) if tier == "thorough" else rng.randint(40, 90)
         aliased_at = set(rng.sample(range(1, k), rng.choice([0, 1, 1, 2])))
         for j in range(1, k):
